@@ -65,6 +65,24 @@ func (r *Report) sample(v any) {
 
 var replaySeq int
 
+// inFlight records the case about to be executed, so that a crash of the process inside the
+// library (stack overflow, fatal error, SIGBUS) still leaves a concrete replay behind; the
+// check driver picks the file up when the engine dies without a report.
+func inFlight(engine string, replay any) {
+	_ = os.MkdirAll(*flagRepl, 0o755)
+	path := filepath.Join(*flagRepl, fmt.Sprintf("inflight-%s-%s.json", *flagProp, engine))
+	if replay == nil {
+		_ = os.Remove(path)
+		return
+	}
+	b, _ := json.Marshal(map[string]any{
+		"property": *flagProp, "engine": engine, "kind": "monitor", "signature": "library-crashes-process",
+		"what": "the process died (fatal error / stack overflow / fault) inside the library while executing this case",
+		"seed": *flagSeed, "tier": *flagTier, "replay": replay,
+	})
+	_ = os.WriteFile(path, b, 0o644)
+}
+
 // violation records a violation and writes its replay file.
 func (r *Report) violation(prop, kind, sig, what string, replay any) {
 	replaySeq++
